@@ -31,6 +31,18 @@ func (s *Service) scheduleAttestations(ctx context.Context,
 	validatorIndices []phase0.ValidatorIndex,
 	notCurrentSlot bool,
 ) {
+	s.scheduleAttestationsWithFilter(ctx, epoch, validatorIndices, func(phase0.Slot) bool { return notCurrentSlot })
+}
+
+// scheduleAttestationsWithFilter schedules attestations for the given epoch and validator indices.
+// skipCurrentSlot is asked, once the duties have been obtained, whether the slot then in progress
+// is to be left alone; obtaining the duties takes time, so that slot need not be the one that was
+// in progress when the request was made.
+func (s *Service) scheduleAttestationsWithFilter(ctx context.Context,
+	epoch phase0.Epoch,
+	validatorIndices []phase0.ValidatorIndex,
+	skipCurrentSlot func(phase0.Slot) bool,
+) {
 	if len(validatorIndices) == 0 {
 		// Nothing to do.
 		return
@@ -84,6 +96,7 @@ func (s *Service) scheduleAttestations(ctx context.Context,
 	}
 
 	currentSlot := s.chainTimeService.CurrentSlot()
+	notCurrentSlot := skipCurrentSlot(currentSlot)
 	for _, duty := range duties {
 		// Do not schedule attestations for past slots (or the current slot if so instructed).
 		if duty.Slot() < currentSlot {
